@@ -17,7 +17,8 @@ class C08(Prop):
             "Non-trivial = at least one set request transmitted; distinct by (parameter, triple, request, retries, history, tracking).")
     assumptions = ["asyncio.sleep granularity and the order in which a report and a timer expiring at the same virtual instant are served are "
                    "fixed by the harness (both orders are generated as distinct histories)",
-                   "reports are delivered through Parameter.update (the call the device handlers make)"]
+                   "reports are delivered through Parameter.update (the call the device handlers make) and, for ecoMAX parameters, also "
+                   "as response frames through a real device (kind `frames`)"]
 
     def generate(self, rng, tier):
         t = G.tables()
@@ -52,6 +53,16 @@ class C08(Prop):
             retries = rng.choice([0, 1, 2, 3, 5])
             evs = [rng.choice(["tick", "tick", "stale", "confirm", "third", "narrow"]) for _ in range(rng.randrange(0, 9))]
             cases.append(self._case(rng, tbl, idx, size, retries, rng.random() < 0.5, evs, "random"))
+        # the same histories on a real ecoMAX device: parameter created and every report delivered by ecoMAX-parameters response
+        # frames (a stale report is then byte-identical to the frame that created the parameter)
+        eco = [x for x in targets if x[0] in (0, 1)]
+        for _ in range(120 if tier == "quick" else 3000):
+            tbl, idx, size = rng.choice(eco)
+            retries = rng.choice([1, 2, 3])
+            evs = [rng.choice(["tick", "tick", "stale", "stale", "confirm", "third"]) for _ in range(rng.randrange(1, 8))]
+            c = self._case(rng, tbl, idx, size, retries, rng.random() < 0.5, evs, "frames")
+            c["b0"] = rng.randrange(256)
+            cases.append(c)
         return cases
 
     def _case(self, rng, tbl, idx, size, retries, tracking, evs, kind):
@@ -76,6 +87,13 @@ class C08(Prop):
                 "tracking": tracking, "events": events, "sub": rng.choice([0, 1])}
 
     def run_impl(self, c):
+        if c["kind"] == "frames":
+            if "_payloads" not in c:
+                trs = [c["triple"]] + [ev[1] for ev in c["events"] if ev[0] == 1]
+                c["_payloads"] = [list(model.call("enc_ecomax_params", [c["b0"], c["idx"], [[tr]]])) for tr in trs]
+            outs, after, _ = vloop.run(param_impl.run_set_call_frames, c["tbl"], c["idx"], c["triple"], c["req"], c["retries"], 5.0,
+                                       c["events"], c["tracking"], c["_payloads"])
+            return [outs, after]
         outs, after, _ = vloop.run(param_impl.run_set_call, c["tbl"], c["idx"], c["triple"], c["req"], c["retries"], 5.0,
                                    c["events"], c["tracking"], c["sub"])
         return [outs, after]
